@@ -76,6 +76,8 @@ def window_items(cols, roles):
         items.append({"op": "extend", "ops": {z: F("_size")}, "partition_by": pb})
         items.append({"op": "extend", "ops": {z: M("sum", V(1))}, "partition_by": pb})
     if K and B is not None:
+        # two order columns with mixed directions (reverse is a proper, non-empty subset of order_by)
+        items.append({"op": "extend", "ops": {z: F("_row_number")}, "partition_by": [K[0]], "order_by": [A, B], "reverse": [B]})
         # two partition columns
         items.append({"op": "extend", "ops": {z: M("sum", C(B))}, "partition_by": [K[0], A]})
         items.append({"op": "extend", "ops": {z: F("_row_number")}, "partition_by": [K[0], A], "order_by": [B], "reverse": []})
@@ -161,6 +163,8 @@ def column_items(cols, roles):
             items.append({"op": "rename_columns", "map": {A: B, B: A}})
             items.append({"op": "map_columns", "map": {A: B, B: A}})
             items.append({"op": "map_columns", "map": {A: nn, B: None}})
+            # renamed to the name of the column that is deleted in the same step
+            items.append({"op": "map_columns", "map": {A: B, B: None}})
         if len(cols) >= 2:
             items.append({"op": "map_columns", "map": {A: None}})
     return items
